@@ -2,6 +2,7 @@ package main
 
 import (
 	"bufio"
+	"crypto/sha256"
 	"fmt"
 	"go/ast"
 	"go/constant"
@@ -177,7 +178,55 @@ func genBech32() {
 	g.src(b, "Encode", "Decode", "EncodedLen", "DecodedLen")
 	g.write()
 }
-func genBip39()  {}
+func genBip39() {
+	p := repoPkg("pkg/bip39")
+	wl := repoPkg("pkg/bip39/wordlist")
+	il := repoPkg("pkg/bip39/internal/wordlists")
+	g := newGen("Bip39")
+	g.def("entropyMultiple", "Int", p.intConst("entropyMultiple"))
+	g.def("entropyMinBits", "Int", p.intConst("entropyMinBits"))
+	g.def("entropyMaxBits", "Int", p.intConst("entropyMaxBits"))
+	g.def("seedSize", "Int", p.intConst("SeedSize"))
+	g.def("indexBits", "Int", wl.intConst("IndexBits"))
+	g.def("wordCount", "Int", wl.intConst("Count"))
+	mask := p.callArgsIn(p.varExpr("wordIndexMask"), "big", "NewInt")
+	g.def("wordIndexMask", "Int", leanInt(constant.ToInt(p.eval(mask[0], 0)).ExactString()))
+	// pbkdf2.Key(password, salt, iter, keyLen, h)
+	ka := p.callArgs("MnemonicToSeed", "pbkdf2", "Key")
+	g.def("pbkdf2Iterations", "Int", leanInt(constant.ToInt(p.eval(ka[2], 0)).ExactString()))
+	g.def("pbkdf2KeyLen", "Int", leanInt(constant.ToInt(p.eval(ka[3], 0)).ExactString()))
+	g.def("pbkdf2Password", "String", leanString(p.src(ka[0])))
+	g.def("pbkdf2Salt", "String", leanString(p.src(ka[1])))
+	g.def("pbkdf2Hash", "String", leanString(p.src(ka[4])))
+	g.def("defaultLanguage", "String", leanString(p.stringConst("defaultLanguage")))
+	g.src(p, "MnemonicToSeed", "EntropyToMnemonic", "MnemonicToEntropy", "computeChecksum",
+		"validateEntropy", "validateMnemonic", "padBytes", "entropyBitsToWordCount", "wordCountToEntropyBits",
+		"ParseMnemonic", "Mnemonic.String", "Mnemonic.MarshalText", "Mnemonic.UnmarshalText",
+		"SetWordList", "RegisterWordList", "init")
+	g.src(il, "newWordList", "wordList.Contains", "wordList.Word", "wordList.Index", "English", "Japanese")
+	for _, lang := range []string{"english", "japanese"} {
+		words := strings.Fields(il.stringConst(lang))
+		body := strings.Join(words, "\n") + "\n"
+		g.def(lang+"Sha256", "String", leanString(fmt.Sprintf("%x", sha256.Sum256([]byte(body)))))
+		g.def(lang+"Count", "Nat", strconv.Itoa(len(words)))
+		var chunks []string
+		for c := 0; c*256 < len(words); c++ {
+			end := (c + 1) * 256
+			if end > len(words) {
+				end = len(words)
+			}
+			var ws []string
+			for _, w := range words[c*256 : end] {
+				ws = append(ws, leanBytes(w))
+			}
+			name := fmt.Sprintf("%s%d", lang, c)
+			g.def(name, "List (List Nat)", "[\n  "+strings.Join(ws, ",\n  ")+"]")
+			chunks = append(chunks, name)
+		}
+		g.def(lang, "List (List Nat)", strings.Join(chunks, " ++ "))
+	}
+	g.write()
+}
 func genCurl() {
 	p := repoPkg("pkg/curl")
 	g := newGen("Curl")
